@@ -763,6 +763,23 @@ pub fn c07(tier: &str) -> Vec<Family> {
             sc3.push(scn(format!("overflow/cap{}/k{}", c, k), &spec, cmds));
         }
     }
+    // Same, but the competing sender's event comes from another origin (the
+    // model's own context), so that it is a separate task that can run in
+    // parallel with the compound future of the driver's batch.
+    for c in [1usize, 2] {
+        let a = NodeSpec::new("A", c).script(1, vec![Op::ReadTime]);
+        let x = NodeSpec::new("X", 2)
+            .script(2, vec![sched_self(SKind::Once, When::Abs(1), 3, 9), sched_self(SKind::Once, When::Abs(1), 3, 9)])
+            .script(3, vec![sendp(0, 1, 200)])
+            .out(vec![to(0)]);
+        let spec = Arc::new(BenchSpec::new(vec![a, x]));
+        for k in (c + 1)..=(c + 2) {
+            let mut cmds: Vec<Cmd> = vec![pe(1, 2, 0)];
+            cmds.extend((0..k).map(|j| Sched { node: 0, kind: SKind::Once, when: When::Abs(1), tag: 1, val: j as i64, slot: j }));
+            cmds.push(Step);
+            sc3.push(scn(format!("overflow_x/cap{}/k{}", c, k), &spec, cmds));
+        }
+    }
     fams.push(Family::new("mailbox_overflow", &["same_origin_order", "sched_missed"], sc3).cap(cap));
     fams
 }
@@ -1207,6 +1224,23 @@ pub fn c14(tier: &str) -> Vec<Family> {
         for v in [0i64, 1] {
             sc.push(scn(format!("requestor/combo{}/v{}", ci, v), &spec, vec![pe(0, 1, v)]));
             sc.push(scn(format!("qsource/combo{}/v{}", ci, v), &spec, vec![Cmd::ProcQSrc { src: 0, tag: 4, val: v }]));
+        }
+    }
+    // A reply iterator that is not fully drained must not leak into the next query.
+    for (ci, combo) in combos.iter().enumerate().filter(|(_, c)| c.len() >= 2) {
+        let conns: Vec<Conn> = combo.iter().enumerate().map(|(i, m)| tom(i + 1, *m)).collect();
+        let a = NodeSpec::new("A", 1)
+            .script(1, vec![Op::QueryTake { port: 0, tag: 4, val: Val::In, take: 1 }, Op::Query { port: 0, tag: 4, val: Val::InPlus(1) }])
+            .script(2, vec![Op::QueryTake { port: 0, tag: 4, val: Val::In, take: 0 }, Op::Query { port: 0, tag: 4, val: Val::InPlus(1) }, query(0, 4)])
+            .req(conns);
+        let mut nodes = vec![a];
+        for i in 0..combo.len() {
+            nodes.push(NodeSpec::new(&format!("R{}", i + 1), 1));
+        }
+        let spec = Arc::new(BenchSpec::new(nodes));
+        for v in [0i64, 1] {
+            sc.push(scn(format!("partial_drain/combo{}/v{}/take1", ci, v), &spec, vec![pe(0, 1, v)]));
+            sc.push(scn(format!("partial_drain/combo{}/v{}/take0", ci, v), &spec, vec![pe(0, 2, v)]));
         }
     }
     let mut fams = vec![Family::new(
